@@ -13,7 +13,7 @@ for i in ids:
         checks.append(dict(property_id=i, quick_cmd="./check %s --tier quick" % i, thorough_cmd="./check %s --tier thorough" % i,
                            evidence_file="/verif/evidence/%s.json" % i, replay_cmd_template="./check %s --replay {path}" % i,
                            engine="coq-model+correspondence",
-                           level_claimed=dict(category="proof", text=cfg.get("level_text", "Coq theorems about the hand-written model (for all inputs, depths, orders, histories the property quantifies over), the model tied to /repo on every run by a differential correspondence check whose verdicts are computed inside Coq"), design_ref="DESIGN.md section 4, " + i),
+                           level_claimed=dict(category="proof", text=cfg.get("level_text", "Coq theorems about the hand-written model (for all inputs, depths, orders, histories the property quantifies over), the model tied to /repo on every run by a differential correspondence check whose verdicts are computed inside Coq"), design_ref="DESIGN.md section 4 (" + i + ", as designed) and section 11.2 (as built)"),
                            level_note=cfg.get("level_note", "trusted: Coq 8.16.1 kernel incl. vm_compute; the Go harness and Python driver; bounded correspondence (sizes and distributions in the evidence); Go runtime and the stdlib functions used as oracles"),
                            technique=cfg.get("technique", "machine-checked proof in Coq 8.16 (theorems: %s) + model/implementation correspondence" % ", ".join(cfg["theorems"][:3]))))
 m["checks"] = checks
